@@ -338,6 +338,9 @@ def run_polars_depth(rep):
         "check": (lambda: pap.Column(int, pap.Check.gt(0), name="a"), pl.DataFrame({"a": [-1]})),
         "nullable": (lambda: pap.Column(int, name="a"), pl.DataFrame({"a": [1, None]})),
         "unique": (lambda: pap.Column(int, unique=True, name="a"), pl.DataFrame({"a": [1, 1]})),
+        # a value that cannot be coerced is a data-level violation (DATATYPE_COERCION), whoever asks for the coercion
+        "coerce": (lambda: pap.Column(int, coerce=True, nullable=True, name="a"), pl.DataFrame({"a": ["1", "x"]})),
+        "frame-coerce": (lambda: pap.Column(int, nullable=True, name="a"), pl.DataFrame({"a": ["1", "x"]})),
     }
     cases = []
     for entry in ("DataFrameSchema", "Column"):
@@ -352,7 +355,13 @@ def run_polars_depth(rep):
     ans = run_driver("C18", [{k: v for k, v in c.items() if k not in ("entry", "violation")} for c in cases])
     for c, a in zip(cases, ans):
         mk, bad = variants[c["violation"]]
-        schema = mk() if c["entry"] == "Column" else pap.DataFrameSchema({"a": mk()})
+        if c["violation"] == "frame-coerce" and c["entry"] == "Column":
+            continue
+        if "coerce" in c["violation"] and not c["isLazy"] and (c["ctx"]["depth"] or c["glob"]["depth"]) == "schemaOnly":
+            # an eager frame is collected before it is returned: the unchecked cast of SCHEMA_ONLY is executed there and
+            # fails inside polars; only a LazyFrame can defer it (not a question of which checks run)
+            continue
+        schema = mk() if c["entry"] == "Column" else pap.DataFrameSchema({"a": mk()}, coerce=c["violation"] == "frame-coerce")
         obj = bad.lazy() if c["isLazy"] else bad
         kw = {}
         if c["ctx"]["depth"]:
